@@ -69,6 +69,8 @@ MUT = {
     "        if p_id is None:\n            # the referenced cell is empty", "        if False:\n            # the referenced cell is empty"),
  'M29_helper_second_id_stale': (K+'FileHandlers/Writer/WriteT4Geometry.py',
     "        union_ids = tuple(renumber[surf] for surf in union_ids)", "        union_ids = (renumber[union_ids[0]], union_ids[1])"),
+ 'M30_helper_plane_value': (K+'Volume/ConstructVolumeT4.py',
+    "                                                [-1],", "                                                [-2],"),
  # behaviour-preserving rewrites
  'R1_removed_not_cumulative': (K+'Volume/ConstructVolumeT4.py',
     "        removed |= removed_at_this_step", "        removed = removed | set(removed_at_this_step)"),
